@@ -20,6 +20,7 @@ package flow
 import (
 	"context"
 	"encoding/binary"
+	"fmt"
 	"sort"
 	"sync"
 	"time"
@@ -154,6 +155,27 @@ func (ctx *StorageExecuteContext) Release() {
 		}
 	}
 	ctx.TaskCtx.Release()
+}
+
+// TagFilterKey returns the key of a tag filter in StorageExecuteContext.TagFilterResult.
+// The rewritten text of a filter does not identify it: host='~a' and host=~'a' both rewrite to "host=~a",
+// host in ('a','b') and host in ('a,b') both rewrite to "host in (a,b)"; keyed by that text the filter which
+// is looked up later replaces the result of the other one.
+func TagFilterKey(expr stmt.Expr) string {
+	switch e := expr.(type) {
+	case *stmt.ParenExpr:
+		return TagFilterKey(e.Expr)
+	case *stmt.EqualsExpr:
+		return fmt.Sprintf("eq:%q:%q", e.Key, e.Value)
+	case *stmt.LikeExpr:
+		return fmt.Sprintf("like:%q:%q", e.Key, e.Value)
+	case *stmt.RegexExpr:
+		return fmt.Sprintf("regex:%q:%q", e.Key, e.Regexp)
+	case *stmt.InExpr:
+		return fmt.Sprintf("in:%q:%q", e.Key, e.Values)
+	default:
+		return expr.Rewrite()
+	}
 }
 
 // TagFilterResult represents the tag filter result, include tag key id and tag value ids.
